@@ -105,6 +105,34 @@ pub fn contains_eq<S: Src>(s: &mut S, bits: u32, max_stride: u64) {
     cov!(s, !got && v > a.s && v < a.e, "non-member between the bounds reached");
 }
 
+/// add
+pub fn add<S: Src>(s: &mut S, bits: u32, max_stride: u64) {
+    let a = any_iv(s, bits, max_stride);
+    let b = any_iv(s, bits, max_stride);
+    let x = any_member(s, &a);
+    let y = any_member(s, &b);
+    note_iv(s, "A", &a);
+    note_iv(s, "B", &b);
+    s.note(&|| format!("x = {} y = {}", x, y));
+    let r = to_interval(&a).add(&to_interval(&b));
+    result_ok!(s, r, bits, sext(x.wrapping_add(y) as u64, bits), "add");
+    cov!(s, !r.is_top() && r.stride > 1, "strided non-top sum reached");
+}
+
+/// sub
+pub fn sub<S: Src>(s: &mut S, bits: u32, max_stride: u64) {
+    let a = any_iv(s, bits, max_stride);
+    let b = any_iv(s, bits, max_stride);
+    let x = any_member(s, &a);
+    let y = any_member(s, &b);
+    note_iv(s, "A", &a);
+    note_iv(s, "B", &b);
+    s.note(&|| format!("x = {} y = {}", x, y));
+    let r2 = to_interval(&a).sub(&to_interval(&b));
+    result_ok!(s, r2, bits, sext(x.wrapping_sub(y) as u64, bits), "sub");
+    cov!(s, !r2.is_top() && r2.stride > 1, "strided non-top difference reached");
+}
+
 /// add / sub
 pub fn add_sub<S: Src>(s: &mut S, bits: u32, max_stride: u64) {
     let a = any_iv(s, bits, max_stride);
@@ -248,8 +276,9 @@ pub fn adjust_rem<S: Src>(s: &mut S, bits: u32, max_stride: u64) {
 crate::harnesses! {
     @quick c02_contains_8[4] => contains_eq(8, 255);
     c02_contains_64_s16[4] => contains_eq(64, 16);
-    @quick c02_add_sub_8[4] => add_sub(8, 255);
-    c02_add_sub_16_s15[4] => add_sub(16, 15);
+    @quick c02_add_8[4] => add(8, 255);
+    @quick c02_sub_8[4] => sub(8, 255);
+    c02_add_16_s15[4] => add(16, 15);
     @quick c02_mul_8[4] => mul(8, 255);
     @quick c02_unary_8[4] => unary(8, 255);
     c02_unary_64_s16[4] => unary(64, 16);
